@@ -542,7 +542,12 @@ struct Assembly {
     }
     int fk = q.finder;
     if (fk == 1 && norm.nb_ctr > 0) for (int i = 0; i < norm.f_ctrs.image_dim(); i++) if (!norm.f_ctrs[i].inhc4revise().implemented()) fk = 2;   // as DefaultOptimizerConfig::set_inHC4
-    switch (fk) { case 0: inner = new LoupFinderProbing(norm, 1 + (int)(q.rseed % 3)); break; case 1: inner = new LoupFinderInHC4(norm); break; default: inner = new LoupFinderFwdBwd(norm); }
+    // the loup finder works on the normalized system or, for a quarter of the problems without equality, on the system as the user
+    // wrote it (>= and > constraints are then seen as such by System::is_inner / active_ctrs)
+    bool has_eq = (("|" + P.specs + "|").find("|eq|") != string::npos);
+    const System& fsys = (!has_eq && q.rseed % 4 == 1) ? (const System&)*P.sys : (const System&)norm;
+    if (fk == 1 && &fsys != (const System*)&norm && fsys.nb_ctr > 0) for (int i = 0; i < fsys.f_ctrs.image_dim(); i++) if (!fsys.f_ctrs[i].inhc4revise().implemented()) fk = 2;
+    switch (fk) { case 0: inner = new LoupFinderProbing(fsys, 1 + (int)(q.rseed % 3)); break; case 1: inner = new LoupFinderInHC4(fsys); break; default: inner = new LoupFinderFwdBwd(fsys); }
     if (q.rigor) { certify = new LoupFinderCertify(*P.sys, *inner); finder = certify; } else finder = inner;
     switch (q.buf) {
       case 0: buffer = new CellHeap(ext); break;
